@@ -589,3 +589,57 @@ package checkers
 //@   nosafety node shapes are the subject of the C01 sweep
 //@   requires c != nil && ctxOK(c.ctx)
 //@   call simplifyBool requires @float-guard-is-about-this-expression $scanned(payload(x)) && c.hasFloats == $scanFound(payload(x))
+
+// unlambda: `func(args) T { return f(args) }` is replaced by `f` only when f has exactly the lambda's type, the callee
+// expression contains no variable whose value could change between creating the function value and calling it (the scan
+// over result.Fun found none), and f is not spelled like a builtin. That the arguments are the parameters in order is
+// checked by the loop below the type comparison and is not restated here.
+//@ func (*unlambdaChecker).VisitExpr
+//@   prop C10
+//@   nosafety node shapes are the subject of the C01 sweep
+//@   requires c != nil && ctxOK(c.ctx)
+//@   call (*unlambdaChecker).warn requires @same-type-and-stable-callee typesIdentical(typeOfSpec(c.ctx, fn), typeOfSpec(c.ctx, result.Fun)) && $scanned(payload(result.Fun)) && !$scanFound(payload(result.Fun)) && arg2 != ""
+
+// underef: (*p).f may drop the star only when p is a pointer whose element is neither a pointer nor an interface (selectors
+// dereference automatically exactly then); (*p)[i] only when p is a pointer to an array (indexing dereferences array pointers only)
+//@ func (*underefChecker).checkStarExpr
+//@   prop C10
+//@   nosafety node shapes are the subject of the C01 sweep
+//@   pure
+//@   requires c != nil && ctxOK(c.ctx) && expr != nil
+//@   ensures @selector-auto-dereferences result ==> (typeIs(typeUnderlying(typeOfSpec(c.ctx, expr.X)), "*types.Pointer") && !typeIs(typeUnderlying(ptrElem(cast(typeUnderlying(typeOfSpec(c.ctx, expr.X)), "*types.Pointer"))), "*types.Pointer") && !typeIs(typeUnderlying(ptrElem(cast(typeUnderlying(typeOfSpec(c.ctx, expr.X)), "*types.Pointer"))), "*types.Interface"))
+
+//@ func (*underefChecker).checkArray
+//@   prop C10
+//@   nosafety node shapes are the subject of the C01 sweep
+//@   pure
+//@   requires c != nil && ctxOK(c.ctx) && expr != nil
+//@   ensures @index-auto-dereferences-array-pointers-only result ==> (typeIs(typeOfSpec(c.ctx, expr.X), "*types.Pointer") && typeIs(ptrElem(cast(typeOfSpec(c.ctx, expr.X), "*types.Pointer")), "*types.Array"))
+
+// ---- C14 (continued): thresholds of ifElseChain and commentedOutCode
+
+// the length of an if-else chain is a function of the (immutable) statement; the call sites use it by this name
+//@ abstract chainLen(stmt ref) int
+//@ func (*ifElseChainChecker).countIfelseLen
+//@   prop C14
+//@   nosafety node shapes are the subject of the C01 sweep
+//@   assigns mapof(c.visited)
+//@   abstracts result as chainLen(stmt)
+
+//@ func (*ifElseChainChecker).warn
+//@   prop C14
+//@   nosafety receivers and contexts are non-nil by construction of the checker (constructor postcondition), not restated here
+//@   emits warned(c.cause)
+
+//@ func (*ifElseChainChecker).checkIfStmt
+//@   prop C14
+//@   nosafety node shapes are the subject of the C01 sweep
+//@   requires c != nil
+//@   ensures @boundary-exact emitted(warned) == old(emitted(warned)) + ite(chainLen(stmt) >= c.minThreshold, 1, 0)
+
+// a comment shorter than minLength that mentions no print/fmt./log. is never reported
+//@ func (*commentedOutCodeChecker).VisitLocalComment
+//@   prop C14
+//@   nosafety node shapes are the subject of the C01 sweep
+//@   requires c != nil
+//@   call (*commentedOutCodeChecker).warn requires @length-guard-exact runeCount(s) >= c.minLength || contains(s, "print") || contains(s, "fmt.") || contains(s, "log.")
